@@ -3,32 +3,8 @@
      real Decoder over [bs] gave [results] (one outcome per call, stopping at a
      panic) and left the cursor at (pos, used_bits) (compared unless it panicked).
    CDecode o bs r : pallas_codec::flat::decode::<T>(bs) gave r. *)
-From PV Require Export Lib.Base Flat.Model.
+From PV Require Export Lib.Base Flat.Model Flat.RunLib.
 Open Scope Z_scope.
-
-Fixpoint dval_eqb (a b : dval) : bool :=
-  match a, b with
-  | DUnit, DUnit => true
-  | DBool x, DBool y => Bool.eqb x y
-  | DU8 x, DU8 y | DWord x, DWord y | DInt x, DInt y | DChar x, DChar y | DBits x, DBits y => x =? y
-  | DBytes x, DBytes y | DUtf8 x, DUtf8 y | DString x, DString y => list_eqb Z.eqb x y
-  | DList x, DList y =>
-    (fix go (l1 l2 : list dval) : bool :=
-       match l1, l2 with
-       | [], [] => true
-       | u :: r1, v :: r2 => dval_eqb u v && go r1 r2
-       | _, _ => false
-       end) x y
-  | _, _ => false
-  end.
-
-Definition outcome_eqb {A} (eqb : A -> A -> bool) (a b : outcome A) : bool :=
-  match a, b with
-  | Ok x, Ok y => eqb x y
-  | Err x, Err y => x =? y
-  | Panic x, Panic y => x =? y
-  | _, _ => false
-  end.
 
 Inductive case : Type :=
 | CScript (bs : list Z) (script : list op) (results : list (outcome dval)) (pos used : Z)
